@@ -130,6 +130,25 @@ int Arena::locate(const void *p, long &off) const {
     off = 0; return -1;
 }
 
+// ================================================================ ASan cooperation
+#ifdef FSIM_ASAN
+} // namespace fsim
+#include <sanitizer/asan_interface.h>
+extern "C" __attribute__((used, visibility("default"))) const char *__asan_default_options() {
+    return "exitcode=77:detect_leaks=0:allow_user_segv_handler=1:handle_segv=0:handle_sigbus=0:handle_sigfpe=0:handle_sigill=0:detect_stack_use_after_return=0:abort_on_error=0";
+}
+namespace fsim {
+void asan_arm() {
+    for (int s = 0; s < NSLOTS; ++s) { Slot &sl = g_arena.slot[s]; if (!sl.nranges) continue;
+        __asan_poison_memory_region(sl.data, SLOT_BYTES);
+        for (int r = 0; r < sl.nranges; ++r) __asan_unpoison_memory_region(sl.data + sl.ranges[r].off, sl.ranges[r].len); }
+}
+void asan_disarm() { for (int s = 0; s < NSLOTS; ++s) if (g_arena.slot[s].nranges) __asan_unpoison_memory_region(g_arena.slot[s].data, SLOT_BYTES); }
+#else
+void asan_arm() {}
+void asan_disarm() {}
+#endif
+
 // ================================================================ outcome
 const char *Outcome::what() const {
     switch (kind) { case 0: return "ok"; case 1: return "signal"; case 2: return "runtime_error"; case 3: return "bad_alloc"; default: return "exception"; }
